@@ -16,6 +16,8 @@
    writes through numpy views into the caller's datasets. *)
 From Coq Require Import List Bool ZArith String Permutation.
 From Pandora Require Import Model.Prange Proofs.PrangeP Gen.Prange.
+From Pandora Require Import Model.Machine Spec.Language Proofs.MachineP Gen.Tables.
+From Pandora Require Import Model.History Proofs.HistoryP Gen.History.
 Import ListNotations.
 Open Scope Z_scope.
 
@@ -88,6 +90,125 @@ Proof.
   exact (proj1 (forallb_forall _ _) C18_prange_race_free N HN).
 Qed.
 
+
+(* ------------------------------------------------------------------ histories *)
+
+(* the obligations of C01 on the regenerated transition tables, needed here *)
+Lemma C01_check_table_wf_C18 : check_tbl_wf check_table = true.
+Proof. vm_compute. reflexivity. Qed.
+Lemma C01_run_table_wf_C18 : run_tbl_wf run_table = true.
+Proof. vm_compute. reflexivity. Qed.
+
+(* Per-run obligations on the regenerated attribute read/write sets of PandoraMachine, for the
+   four values of (multiscale?, right products?): run_prepare reads no attribute but the
+   persistent pair (right_disp_map, step) and assigns both products; matching_cost_prepare and
+   matching_cost_run read only what run_prepare or they themselves assigned; every other run
+   callback reads only that (run_multiscale is exempt when there is no multiscale). *)
+Definition skip_of (multi : bool) : list string := if multi then [] else multiscale_callbacks.
+Theorem C18_run_attrs_covered :
+  forallb (fun mr : bool * bool =>
+             covered (prepare_info (fst mr)) (callback_info (snd mr)) first_callbacks (skip_of (fst mr))
+             && persist_only_prepared (prepare_info (fst mr)) (callback_info (snd mr))
+             && table_ok trigger_callbacks (callback_info (snd mr)) first_callbacks multiscale_callbacks)
+          [(false, false); (false, true); (true, false); (true, true)] = true.
+Proof. vm_compute. reflexivity. Qed.
+
+(* the attributes a run does not recompute are exactly these two; both are initialised by
+   __init__ (so a fresh machine has them) *)
+Theorem C18_persistent_attributes :
+  persist = ["right_disp_map"; "step"]%string /\ subset_s persist attrs_init = true.
+Proof. split; [reflexivity|vm_compute; reflexivity]. Qed.
+
+(* class-level / module-level dictionaries written by check/run code: every writer overwrites
+   the same keys before validating *)
+Theorem C18_shared_dicts_wf : forallb shared_wf shared_dicts = true.
+Proof. vm_compute. reflexivity. Qed.
+
+Section C18_history.
+  Variable value : Type.                                  (* whatever an attribute holds *)
+  Variable sem : string -> Z -> store value -> store value. (* meaning of each run callback (name, configured step) *)
+  Variable prep_sem : store value -> store value.         (* meaning of run_prepare for the given cfg and inputs *)
+
+  (* The products of pandora.run are a function of (pipeline, inputs, right_disp_map, step):
+     two machines in ARBITRARY states that agree on the persistent pair -- a fresh one and one
+     that went through any calls -- return the same left and right products, for every
+     accepted pipeline, number of scales, and every meaning of the callbacks that respects the
+     regenerated frames (reads / assigns / may assign; attributes read may be mutated in place). *)
+  Theorem C18_run_products_history_free :
+    forall (p : list step) (d : state) (n : nat) (rdm : bool),
+      respects value (prepare_info (1 <? n)%nat) prep_sem ->
+      (forall c id, In c (callback_info rdm) -> respects value c (sem (cb_name c) id)) ->
+      path_ok Begin p = Some d -> p <> [] -> (n >= 1)%nat ->
+      forall s1 s2, agree value persist s1 s2 ->
+        agree value products
+          (run_data value sem prep_sem trigger_callbacks p n rdm s1)
+          (run_data value sem prep_sem trigger_callbacks p n rdm s2).
+  Proof.
+    intros p d n rdm Hprep Hsem Hp Hne Hn.
+    pose proof (proj1 (forallb_forall _ _) C18_run_attrs_covered ((1 <? n)%nat, rdm)) as H.
+    assert (Hin : In ((1 <? n)%nat, rdm) [(false, false); (false, true); (true, false); (true, true)]).
+    { destruct (1 <? n)%nat, rdm; cbn; tauto. }
+    specialize (H Hin). cbn [fst snd] in H.
+    apply andb_true_iff in H. destruct H as [H Ht]. apply andb_true_iff in H. destruct H as [Hc _].
+    apply (run_data_history_free value sem prep_sem trigger_callbacks
+             (prepare_info (1 <? n)%nat) (callback_info rdm) first_callbacks multiscale_callbacks p d n rdm);
+      auto.
+  Qed.
+End C18_history.
+
+Section C18_calls.
+  Variable step_ok : step -> bool -> bool.   (* parameter validity of each step (C05) *)
+
+  (* Every history of check / run calls of one accepted pipeline on one machine (fresh, or left
+     by any such history): every run has the same callback trace and its callbacks read the
+     same persistent pair: right_disp_map set iff a validation step is configured, step = 1.
+     Hypothesis [mc_step = 1]: the `step` parameter of the matching-cost step is 1 (anything
+     else is refused by AbstractMatchingCost.check_conf unless pandora2d is loaded). *)
+  Theorem C18_rerun_same_trace_and_persistent_pair : forall n p d h m,
+    clean m -> (m_rdm m = true -> has_kind Val p = true) ->
+    path_ok Begin p = Some d -> accept_b step_ok (has_kind Val p) p = true ->
+    (n >= 1)%nat -> ((n > 1)%nat -> has_kind Msc p = true) ->
+    hhistory check_table run_table step_ok 1 n p (m, 1%Z) h = map (hexpected n p) h.
+  Proof.
+    intros n p d h m Hm Hr Hp Ha Hn Hms.
+    exact (hhistory_spec check_table run_table step_ok C01_check_table_wf_C18 C01_run_table_wf_C18 1
+             n p d h m 1%Z Hm Hr eq_refl eq_refl Hp Ha Hn Hms).
+  Qed.
+End C18_calls.
+
+(* Without the hypothesis on `step` the statement is false of the model: a machine that checked
+   a pipeline whose matching-cost step is 2 runs filter_run with step = 2, a fresh machine with
+   step = 1 (run_prepare never assigns `step`), and filter_run reads it.  (Not reachable in
+   Pandora alone: step <> 1 is refused unless pandora2d is loaded; and the built-in filters use
+   `step` only in their margins, not in filter_disparity.  Recorded as an observation.) *)
+Theorem C18_step_leaks_from_check_witness :
+  exists p h,
+    path_ok Begin p = Some DispMap /\
+    hhistory check_table run_table (fun _ _ => true) 2 1 p (machine0, 1%Z) h
+    = [HRan (expected_trace p 1 false) false 1%Z; HAccepted; HRan (expected_trace p 1 false) false 2%Z] /\
+    existsb (fun c => String.eqb (cb_name c) "filter_run" && mem_s "step" (cb_reads c)) (callback_info false) = true /\
+    mem_s "step" (cb_may (prepare_info false)) = false.
+Proof.
+  exists [mkStep 0 (Some MC); mkStep 1 (Some Dsp); mkStep 2 (Some Flt)], [HRun; HCheck; HRun].
+  vm_compute. repeat split.
+Qed.
+
+(* The dictionary a matching-cost class (or check_input_section variant) validates with is the
+   literal overwritten by its own keys, whatever classes / variants were used before, in this
+   or in other machine objects of the process. *)
+Theorem C18_shared_dict_history_free :
+  forall (V : Type) (d : shared), In d shared_dicts ->
+  forall (h : list (list (string * V))) (mine : list (string * V)) (base : dict V),
+    (forall kvs, In kvs h -> exists w, In w (sd_writers d) /\ map fst kvs = snd w) ->
+    (exists w, In w (sd_writers d) /\ map fst mine = snd w) ->
+    forall k, lookup V k (write_all V mine (after_history V h base)) = lookup V k (write_all V mine base).
+Proof.
+  intros V d Hd h mine base Hh Hm.
+  pose proof (proj1 (forallb_forall _ _) C18_shared_dicts_wf d Hd) as Hwf.
+  destruct Hm as (w & Hw & Em). destruct w as [w0 ks0].
+  apply (shared_wf_sound V d Hwf h mine base w0 ks0 Hw Hh). exists (w0, ks0). auto.
+Qed.
+
 (* ---------------------------------------------------------------- witnesses *)
 Open Scope string_scope.
 
@@ -158,3 +279,10 @@ Print Assumptions C18_parallel_switch.
 Print Assumptions C18_data_precondition_arrays.
 Print Assumptions C18_kernels_schedule_independent.
 Print Assumptions C18_kernels_permutation_independent.
+Print Assumptions C18_run_attrs_covered.
+Print Assumptions C18_persistent_attributes.
+Print Assumptions C18_shared_dicts_wf.
+Print Assumptions C18_run_products_history_free.
+Print Assumptions C18_rerun_same_trace_and_persistent_pair.
+Print Assumptions C18_step_leaks_from_check_witness.
+Print Assumptions C18_shared_dict_history_free.
